@@ -92,6 +92,7 @@
 #include <string>
 #include <type_traits>
 #include <unordered_set>
+#include <initializer_list>
 #include <utility>
 #include <vector>
 
@@ -218,11 +219,15 @@ FCPPT_MAKE_STRONG_TYPEDEF(Val, LeftT);
 FCPPT_MAKE_STRONG_TYPEDEF(Val, RightT);
 
 // con:k / ast:k - the Result types of construct<Result> and as_struct<Result> in the Val world
+// construct.hpp documents `Result{v}` (list initialisation): a Result that has BOTH an initializer-list constructor and a
+// constructor from the value tells the two forms apart (std::vector<unsigned>{3} is {3}, std::vector<unsigned>(3) is {0,0,0})
 template <unsigned K>
 struct con_t
 {
   Val v;
-  explicit con_t(Val &&_v) : v{std::move(_v)} {}
+  bool braces;
+  con_t(std::initializer_list<Val> _l) : v{*_l.begin()}, braces{true} {}
+  explicit con_t(Val &&_v) : v{std::move(_v)}, braces{false} {}
 };
 
 template <unsigned K>
@@ -236,7 +241,8 @@ struct ast_t
 template <unsigned K>
 Val cv_con(con_t<K> &&c)
 {
-  return Val::one(Val::kind::tag, static_cast<long long>(K), std::move(c.v));
+  // a struct built with Result(v) instead of Result{v} is shown under another tag, so it differs from the model's value
+  return Val::one(Val::kind::tag, static_cast<long long>(c.braces ? K : K + 1000U), std::move(c.v));
 }
 
 template <unsigned K>
